@@ -47,7 +47,7 @@ def features(case, leaf=None):
     if o["codecTag"] != 255:
         f.append("codec%d" % o["codecTag"])
     if o.get("codec", 0) != 0:
-        f.append({1: "snappy", 5: "lz4"}.get(o["codec"], "codec?"))
+        f.append({1: "snappy", 5: "lz4", 2: "gzip-stored", 6: "zstd-raw"}.get(o["codec"], "codec?"))
     if o["useDict"] and (leaf is None or leaf["type"] != 0):
         f.append("dict")
         if not o["dictOffsetField"]:
